@@ -666,6 +666,16 @@ def check_close(ctx, rule="T-FIN"):
         if nx is None or S.lin(_resolve(nx)) != S.lin_shift(S.lin(OLD_NXT), 1):
             probs.append("close() -> %s does not advance SND.NXT by one for the FIN (SND.NXT' = %s)" % (sname, S.term_str(nx) if nx else "unchanged"))
     ctx.require(n >= 2, "%s: state-changing arms of Tcb::close not found" % rule)
+    # RFC 9293 3.10.4: the CLOSE is "queued until all preceding SENDs have been segmentized".  Text handed to send() sits in
+    # outgoing.text until segments() cuts it; a close() that neither looks at outgoing.text nor defers the FIN takes the
+    # sequence number right after what was segmentised so far, and (segments() stops cutting once the state has left
+    # ESTABLISHED / CLOSE-WAIT) the pending text is never sent: data submitted before the close does not reach the peer.
+    pending = ("field", ("field", SELF, "outgoing"), "text")
+    looks = bool(S.atoms(t, lambda x: x == pending))
+    sg = prog.method("Tcb", "segments")
+    (ctx.ok if looks else ctx.bad)(rule, rule + ":close:pending-text", b.span,
+        "close() takes the text still waiting in outgoing.text into account" if looks else
+        "close() queues the FIN at SND.NXT without regard to text still waiting in outgoing.text (send() followed by close() before the next segments()): that text is never segmentised afterwards, so data submitted before the close is not delivered before the peer sees the end of the stream")
     (ctx.bad if probs else ctx.ok)(rule, rule + ":Tcb::close", b.span, "; ".join(sorted(set(probs))[:3]) if probs else
         "every closing transition queues <SEQ=SND.NXT><ACK=RCV.NXT><FIN,ACK> and advances SND.NXT by one (%d arms)" % n)
 
